@@ -1,16 +1,22 @@
 package p_proto
 
 import (
+	"bytes"
 	"crypto/sha256"
+	"encoding/binary"
 	"encoding/hex"
 	"fmt"
 	"math/big"
 	"testing"
 
+	cpebble "github.com/cockroachdb/pebble"
+	"github.com/cockroachdb/pebble/vfs"
 	"github.com/ethereum/go-ethereum/common/hexutil"
 	"github.com/ethereum/go-ethereum/p2p/enode"
 	"github.com/holiman/uint256"
 	"github.com/zen-eth/shisui/portalwire"
+	"github.com/zen-eth/shisui/storage"
+	spebble "github.com/zen-eth/shisui/storage/pebble"
 	"pgregory.net/rapid"
 	"verifharness/gen"
 	"verifharness/pbt"
@@ -303,3 +309,66 @@ func runC06Site(p c06Site, c *stats.Case) error {
 func TestC06_Sites(t *testing.T) { pbt.Run(t, "C06", "sites", genC06Site, runC06Site) }
 
 var _ = gen.Key
+
+// ---------------------------------------------------------------------------
+// C06 (d): "the same rule" at the boundary distance == radius: the in-range helper must decide as the
+// real store's admission does. Distances are byte palindromes, so the verdict does not depend on the
+// byte order the store reads its keys in (known finding D11).
+
+type c06Boundary struct {
+	Seeds []uint32 // palindromic ids of the items that fill the store
+	Size  int      // value size in KB
+}
+
+func genC06Boundary(t *rapid.T) c06Boundary {
+	return c06Boundary{Seeds: rapid.SliceOfNDistinct(rapid.Uint32Range(1, 1<<31), 12, 30, func(v uint32) uint32 { return v }).Draw(t, "seeds"),
+		Size: rapid.IntRange(60, 140).Draw(t, "sizeKB")}
+}
+
+func palindrome(seed uint32) []byte {
+	id := make([]byte, 32)
+	var h [16]byte
+	binary.BigEndian.PutUint32(h[0:], seed)
+	binary.BigEndian.PutUint32(h[4:], seed*2654435761)
+	binary.BigEndian.PutUint32(h[8:], seed*40503+7)
+	binary.BigEndian.PutUint32(h[12:], ^seed)
+	for i := 0; i < 16; i++ {
+		id[i], id[31-i] = h[i], h[i]
+	}
+	return id
+}
+
+func runC06Boundary(p c06Boundary, c *stats.Case) error {
+	var node enode.ID // all zero: distance == content id
+	db, err := cpebble.Open("", &cpebble.Options{FS: vfs.NewMem()})
+	if err != nil {
+		return fmt.Errorf("harness: %v", err)
+	}
+	st, err := spebble.NewStorage(storage.PortalStorageConfig{StorageCapacityMB: 1, NodeId: node, NetworkName: "c06"}, db)
+	if err != nil {
+		return fmt.Errorf("harness: %v", err)
+	}
+	max := uint256.MustFromHex("0xffffffffffffffffffffffffffffffffffffffffffffffffffffffffffffffff")
+	for i, seed := range p.Seeds {
+		id := palindrome(seed)
+		_ = st.Put(id, id, fillBytes(p.Size*1000, byte(i)))
+		r := st.Radius()
+		if r.Eq(max) {
+			continue
+		}
+		rb := r.Bytes32()
+		if !bytes.Equal(rb[:], reverse32(rb[:])) {
+			continue // radius is not a palindrome (cannot happen with palindromic keys); skip rather than depend on D11
+		}
+		x := rb[:] // content id at distance == radius from the zero node id
+		admitted := st.Put(x, x, []byte("boundary probe")) == nil
+		inR := portalwire.VerifInRange(node, r, x)
+		c.NT("boundary-compared")
+		if admitted != inR {
+			return fmt.Errorf("at distance == radius (%s) the store's admission says %v but the in-range test says %v: not the same rule", r.Hex(), admitted, inR)
+		}
+	}
+	return nil
+}
+
+func TestC06_Boundary(t *testing.T) { pbt.Run(t, "C06", "boundary", genC06Boundary, runC06Boundary) }
